@@ -311,6 +311,15 @@ def gen_shapes(rng, tier):
     shapes.append(Shape("handler-tail",
                         "(define (hn i acc) (c09-sample!) (if (= i 0) acc (with-handler (lambda (e) (hn (- i 1) (+ acc 1))) (error \"x\"))))",
                         lambda n: "(hn %d 0)" % n, lambda n: canon_int(n), counts=(60, 240)))
+    shapes.append(Shape("case", "(define (cs i acc) (c09-sample!) (case (modulo i 3) [(0) (if (= i 0) acc (cs (- i 1) (+ acc 1)))] [(1) (cs (- i 1) (+ acc 2))] [else (cs (- i 1) (+ acc 3))]))",
+                        lambda n: "(cs %d 0)" % n,
+                        lambda n: canon_int(sum((1, 2, 3)[i % 3] for i in range(1, n + 1)) if n < 2000 else
+                                            (n // 3) * 6 + sum((1, 2, 3)[i % 3] for i in range(1, n % 3 + 1)))))
+    # through a local variable bound to the procedure
+    shapes.append(Shape("variable", "(define (vr i acc) (c09-sample!) (let ((g vr)) (if (= i 0) acc (g (- i 1) (+ acc 4)))))",
+                        lambda n: "(vr %d 0)" % n, lambda n: canon_int(4 * n)))
+    shapes.append(Shape("do-loop", "(define (dl n) (do ((i n (- i 1)) (acc 0 (+ acc 1))) ((= i 0) acc) (c09-sample!)))",
+                        lambda n: "(dl %d)" % n, lambda n: canon_int(n)))
     # 8. named let
     shapes.append(Shape("named-let", "(define (nl n) (let lp ((i n) (acc 0)) (c09-sample!) (if (= i 0) acc (lp (- i 1) (+ acc i)))))",
                         lambda n: "(nl %d)" % n, lambda n: canon_int(n * (n + 1) // 2)))
@@ -403,7 +412,7 @@ def run(ck):
     limit = facts["limit"]
 
     quick = ck.tier == "quick"
-    n1, n2 = N1, N2 = (1000, 100000) if quick else (100000, 3000000)
+    n1, n2 = N1, N2 = (1000, 100000) if quick else (1000000, 10000000)
     shapes = gen_shapes(ck.rng, ck.tier)
     corpus_dir = os.path.join(common.ROOT, "corpus", "c09")
     for p in sorted(os.listdir(corpus_dir)) if os.path.isdir(corpus_dir) else []:
